@@ -317,6 +317,18 @@ func (c *Ctx) CorpusLines() []string {
 	return out
 }
 
+// FrameCase is an oracle-only case for a frame the library wrote to the connection: the Lean reference wire
+// decoder (Spec.Wire.wfAny) must accept it as a complete, length-consistent packet sourced from hostMAC.
+func FrameCase(what string, hostMAC []byte, frame []byte) Case {
+	return Case{Line: "wf any " + Hex(hostMAC) + " " + Hex(frame), Impl: "ok", Class: "emitted-frame", Cmp: func(a, b string) bool { return true },
+		OracleR: func(reply string) (string, string) {
+			if reply != "ok" {
+				return what + ": reference decoder rejects a transmitted frame: " + reply, ""
+			}
+			return "", ""
+		}}
+}
+
 // WithTimeout runs f in a goroutine; when it does not return within d the result is "hang"
 // (the goroutine is abandoned – callers should stop issuing that operation).
 func WithTimeout(d time.Duration, f func() string) string {
